@@ -1,1 +1,291 @@
-(* placeholder: to be written *)
+(** Executable model of energy-integration/fees-collector on top of [Model.Weekly], together with
+    the energy source it reads (energy-integration/energy-factory-mock: the collector reads the
+    factory's [userEnergy] storage directly and depletes the entry to the current epoch).
+
+    Mirrors:
+      fees-collector/src/lib.rs                       (init, claimRewards, claimBoostedRewards, claim_rewards,
+                                                       FeesCollectorWrapper::collect_rewards_for_week)
+      fees-collector/src/fees_accumulation.rs         (depositSwapFees, get_and_clear_accumulated_fees)
+      fees-collector/src/additional_locked_tokens.rs  (setLockedTokensPerBlock, accumulate_additional_locked_tokens)
+      fees-collector/src/config.rs                    (known contracts / tokens)
+      common/modules/sc_whitelist_module              (get_orig_caller_from_opt, whitelist endpoints)
+      multiversx-sc-modules pause                     (pause / unpause / not_paused)
+      common-modules/energy-query/src/lib.rs          (get_energy_entry)
+      energy-factory-mock/src/lib.rs                  (setUserEnergy, setUserEnergyAfterLockedTokenTransfer)
+    No proofs in this file. *)
+From MX Require Import Base.Prelude Gen.Params Model.Weekly.
+
+(** Token codes: 8 = the locked token (rewards in it are re-locked through the locking contract, never
+    paid from the collector's balance), anything else is an ordinary fungible fee token. *)
+Definition LOCKED : Z := 8.
+(** Account ids: OWNER deployed the collector; ids from SC_MIN up to OWNER are smart-contract
+    addresses (pairs / proxies / depositors), ids below are user addresses. *)
+Definition OWNER : Z := 100.
+Definition SC_MIN : Z := 50.
+Definition is_sc (a : Z) : bool := (SC_MIN <=? a) && (a <? OWNER).
+
+(** the host part the weekly module's [collect] hook works on *)
+Record fhost := mkHost {
+  h_tokens : list Z;                       (* allTokens, in order *)
+  h_acc : list (Z * list (Z * Z))          (* accumulatedFees(week)(token) *)
+}.
+
+Record fc := mkFC {
+  fc_h : fhost;
+  fc_w : wstate;
+  fc_first_epoch : Z;                      (* firstWeekStartEpoch *)
+  fc_epoch : Z;                            (* current block epoch *)
+  fc_contracts : list Z;                   (* knownContracts *)
+  fc_wl : list Z;                          (* scWhitelistAddresses *)
+  fc_allow : list Z;                       (* allowExternalClaimRewards (no endpoint sets it in this version) *)
+  fc_paused : bool;
+  fc_lock_week : Z;                        (* lastLockedTokenAddWeek *)
+  fc_per_block : Z;                        (* lockedTokensPerBlock *)
+  fc_bal : list (Z * Z);                   (* the collector's fungible balances *)
+  fc_factory : list (Z * en)               (* energy factory: userEnergy(user) *)
+}.
+
+Definition with_h (f : fc) (h : fhost) : fc :=
+  mkFC h (fc_w f) (fc_first_epoch f) (fc_epoch f) (fc_contracts f) (fc_wl f) (fc_allow f) (fc_paused f)
+       (fc_lock_week f) (fc_per_block f) (fc_bal f) (fc_factory f).
+Definition with_w (f : fc) (w : wstate) : fc :=
+  mkFC (fc_h f) w (fc_first_epoch f) (fc_epoch f) (fc_contracts f) (fc_wl f) (fc_allow f) (fc_paused f)
+       (fc_lock_week f) (fc_per_block f) (fc_bal f) (fc_factory f).
+Definition with_epoch (f : fc) (e : Z) : fc :=
+  mkFC (fc_h f) (fc_w f) (fc_first_epoch f) e (fc_contracts f) (fc_wl f) (fc_allow f) (fc_paused f)
+       (fc_lock_week f) (fc_per_block f) (fc_bal f) (fc_factory f).
+Definition with_contracts (f : fc) (l : list Z) : fc :=
+  mkFC (fc_h f) (fc_w f) (fc_first_epoch f) (fc_epoch f) l (fc_wl f) (fc_allow f) (fc_paused f)
+       (fc_lock_week f) (fc_per_block f) (fc_bal f) (fc_factory f).
+Definition with_wl (f : fc) (l : list Z) : fc :=
+  mkFC (fc_h f) (fc_w f) (fc_first_epoch f) (fc_epoch f) (fc_contracts f) l (fc_allow f) (fc_paused f)
+       (fc_lock_week f) (fc_per_block f) (fc_bal f) (fc_factory f).
+Definition with_paused (f : fc) (b : bool) : fc :=
+  mkFC (fc_h f) (fc_w f) (fc_first_epoch f) (fc_epoch f) (fc_contracts f) (fc_wl f) (fc_allow f) b
+       (fc_lock_week f) (fc_per_block f) (fc_bal f) (fc_factory f).
+Definition with_lock (f : fc) (wk pb : Z) : fc :=
+  mkFC (fc_h f) (fc_w f) (fc_first_epoch f) (fc_epoch f) (fc_contracts f) (fc_wl f) (fc_allow f) (fc_paused f)
+       wk pb (fc_bal f) (fc_factory f).
+Definition with_bal (f : fc) (l : list (Z * Z)) : fc :=
+  mkFC (fc_h f) (fc_w f) (fc_first_epoch f) (fc_epoch f) (fc_contracts f) (fc_wl f) (fc_allow f) (fc_paused f)
+       (fc_lock_week f) (fc_per_block f) l (fc_factory f).
+Definition with_factory (f : fc) (l : list (Z * en)) : fc :=
+  mkFC (fc_h f) (fc_w f) (fc_first_epoch f) (fc_epoch f) (fc_contracts f) (fc_wl f) (fc_allow f) (fc_paused f)
+       (fc_lock_week f) (fc_per_block f) (fc_bal f) l.
+
+(** init(locked_token_id, energy_factory_address) at block epoch [epoch] *)
+Definition init_fc (epoch : Z) : fc :=
+  mkFC (mkHost [LOCKED] []) init_w epoch epoch [] [] [] false 0 0 [] [].
+
+Definition mem (x : Z) (l : list Z) : bool := existsb (Z.eqb x) l.
+Definition remove_z (x : Z) (l : list Z) : list Z := filter (fun y => negb (y =? x)) l.
+
+(** ------------------------------------------------------------------ energy factory (mock) + energy-query *)
+Fixpoint efind (l : list (Z * en)) (u : Z) : option en :=
+  match l with
+  | [] => None
+  | (u', e) :: t => if u' =? u then Some e else efind t u
+  end.
+
+Fixpoint eset (l : list (Z * en)) (u : Z) (e : en) : list (Z * en) :=
+  match l with
+  | [] => [(u, e)]
+  | (u', e') :: t => if u' =? u then (u, e) :: t else (u', e') :: eset t u e
+  end.
+
+(** get_energy_entry *)
+Definition energy_entry (f : fc) (u : Z) : en :=
+  match efind (fc_factory f) u with
+  | Some e => en_deplete e (fc_epoch f)
+  | None => en_zero (fc_epoch f)
+  end.
+
+Definition current_week (f : fc) : result Z := week_for_epoch (fc_first_epoch f) (fc_epoch f).
+
+(** ------------------------------------------------------------------ fees_accumulation.rs *)
+Definition acc_get (h : fhost) (week tok : Z) : Z := aget (rget (h_acc h) week) tok.
+Definition acc_set (h : fhost) (week tok v : Z) : fhost :=
+  mkHost (h_tokens h) (rset (h_acc h) week (aset (rget (h_acc h) week) tok v)).
+
+(** FeesCollectorWrapper::collect_rewards_for_week: every known token's accumulated amount is taken
+    (cleared); the non-zero ones form the week's total, in allTokens order *)
+Fixpoint collect_tokens (h : fhost) (week : Z) (toks : list Z) : fhost * list (Z * Z) :=
+  match toks with
+  | [] => (h, [])
+  | t :: tl =>
+      let v := acc_get h week t in
+      let '(h', r) := collect_tokens (acc_set h week t 0) week tl in
+      (h', if 0 <? v then (t, v) :: r else r)
+  end.
+
+Definition fc_collect (h : fhost) (week : Z) : fhost * list (Z * Z) := collect_tokens h week (h_tokens h).
+
+(** the collector keeps the default get_user_rewards_for_week *)
+Definition fc_hook := default_user_rewards fhost fc_collect.
+
+(** ------------------------------------------------------------------ additional_locked_tokens.rs *)
+Definition accumulate_additional (f : fc) (cw : Z) : fc :=
+  if fc_lock_week f =? cw then f else
+  let lw := cw - 1 in
+  let add := fc_per_block f * BLOCKS_IN_WEEK in
+  let h := acc_set (fc_h f) lw LOCKED (acc_get (fc_h f) lw LOCKED + add) in
+  with_lock (with_h f h) cw (fc_per_block f).
+
+(** ------------------------------------------------------------------ operations *)
+Inductive fop :=
+| Advance (n : Z)                                  (* the chain moves on by n epochs *)
+| SetEnergy (u amt tok : Z)                        (* factory: entry (amt, current epoch, tok) *)
+| SetEnergyRaw (u amt ep tok : Z)                  (* factory: arbitrary entry (signed amount, any epoch) *)
+| Deposit (c tok nonce amt : Z)                    (* depositSwapFees with one payment *)
+| Claim (c : Z) (orig : option Z) (boosted : bool) (* claimRewards / claimBoostedRewards [original caller] *)
+| UpdateEnergy (c u : Z)                           (* updateEnergyForUser(u) *)
+| Pause (c : Z) (p : bool)
+| AddToken (c t : Z) | RemoveToken (c t : Z)
+| AddContract (c a : Z) | RemoveContract (c a : Z)
+| WlAdd (c a : Z) | WlRm (c a : Z)
+| SetPerBlock (c amt : Z).
+
+(** what an operation hands back: the payments the endpoint returns (token, amount) and, for a
+    claim, the per-week breakdown [(week, payments)] they were added up from *)
+Definition outs := list (Z * Z).
+Definition detail := list (Z * list (Z * Z)).
+
+Definition owner_only (c : Z) : bool := c =? OWNER.
+
+Definition ep_advance (f : fc) (n : Z) : result (fc * outs * detail) :=
+  check (0 <=? n) else EGuard;
+  Ok (with_epoch f (fc_epoch f + n), [], []).
+
+Definition ep_set_energy (f : fc) (u amt tok : Z) : result (fc * outs * detail) :=
+  check (0 <=? amt) && (0 <=? tok) else EGuard;
+  Ok (with_factory f (eset (fc_factory f) u (mkEn amt (fc_epoch f) tok)), [], []).
+
+Definition ep_set_energy_raw (f : fc) (u amt ep tok : Z) : result (fc * outs * detail) :=
+  check (0 <=? ep) && (0 <=? tok) else EGuard;
+  Ok (with_factory f (eset (fc_factory f) u (mkEn amt ep tok)), [], []).
+
+Definition ep_deposit (f : fc) (c tok nonce amt : Z) : result (fc * outs * detail) :=
+  check (0 <=? amt) && (0 <=? nonce) else EGuard;
+  check mem c (fc_contracts f) else EPerm;
+  check mem tok (h_tokens (fc_h f)) else EGuard;
+  do cw <- current_week f;
+  do f1 <- (if 0 <? nonce then
+              check (tok =? LOCKED) else EGuard;
+              Ok f                                                      (* burned on arrival *)
+            else Ok (with_bal f (aset (fc_bal f) tok (aget (fc_bal f) tok + amt))));
+  Ok (with_h f1 (acc_set (fc_h f1) cw tok (acc_get (fc_h f1) cw tok + amt)), [], []).
+
+(** outgoing direct_multi: the VM aborts on an insufficient balance *)
+Fixpoint pay_out (bal : list (Z * Z)) (ps : list (Z * Z)) : result (list (Z * Z)) :=
+  match ps with
+  | [] => Ok bal
+  | (t, a) :: tl => do b <- sub_chk (aget bal t) a; pay_out (aset bal t b) tl
+  end.
+
+Definition locked_total (ps : list (Z * Z)) : Z :=
+  fold_right (fun p acc => if fst p =? LOCKED then snd p + acc else acc) 0 ps.
+Definition unlocked_part (ps : list (Z * Z)) : list (Z * Z) :=
+  filter (fun p => negb (fst p =? LOCKED)) ps.
+
+(** claim_rewards(caller, original_caller): rewards go to [dest], progress and energy are [user]'s *)
+Definition claim_rewards (f : fc) (dest user : Z) : result (fc * outs * detail) :=
+  do cw <- current_week f;
+  let f1 := accumulate_additional f cw in
+  do (h2, w2, det) <- claim_multi fhost fc_hook (fc_h f1) (fc_w f1) user cw (energy_entry f1 user);
+  let f2 := with_w (with_h f1 h2) w2 in
+  let all := flat_rewards det in
+  let plain := unlocked_part all in
+  let lk := locked_total all in
+  do bal' <- pay_out (fc_bal f2) plain;
+  (* locked-token rewards are minted by the locking contract (lock_virtual), not taken from the balance *)
+  Ok (with_bal f2 bal', plain ++ (if 0 <? lk then [(LOCKED, lk)] else []), det).
+
+Definition ep_claim (f : fc) (c : Z) (orig : option Z) (boosted : bool) : result (fc * outs * detail) :=
+  check negb (fc_paused f) else EState;
+  if boosted then
+    match orig with
+    | Some u => check mem u (fc_allow f) else EPerm; claim_rewards f u u
+    | None => claim_rewards f c c
+    end
+  else
+    match orig with
+    | Some u => check mem c (fc_wl f) else EPerm; claim_rewards f c u
+    | None => claim_rewards f c c
+    end.
+
+Definition ep_update_energy (f : fc) (c u : Z) : result (fc * outs * detail) :=
+  do cw <- current_week f;
+  do w' <- update_energy_for_user (fc_w f) u cw (energy_entry f u);
+  Ok (with_w f w', [], []).
+
+Definition ep_pause (f : fc) (c : Z) (p : bool) : result (fc * outs * detail) :=
+  check owner_only c else EPerm;
+  Ok (with_paused f p, [], []).
+
+Definition ep_add_token (f : fc) (c t : Z) : result (fc * outs * detail) :=
+  check owner_only c else EPerm;
+  let h := fc_h f in
+  Ok (with_h f (mkHost (if mem t (h_tokens h) then h_tokens h else h_tokens h ++ [t]) (h_acc h)), [], []).
+
+Definition ep_remove_token (f : fc) (c t : Z) : result (fc * outs * detail) :=
+  check owner_only c else EPerm;
+  let h := fc_h f in
+  Ok (with_h f (mkHost (remove_z t (h_tokens h)) (h_acc h)), [], []).
+
+Definition ep_add_contract (f : fc) (c a : Z) : result (fc * outs * detail) :=
+  check owner_only c else EPerm;
+  check is_sc a else EGuard;
+  Ok (with_contracts f (if mem a (fc_contracts f) then fc_contracts f else fc_contracts f ++ [a]), [], []).
+
+Definition ep_remove_contract (f : fc) (c a : Z) : result (fc * outs * detail) :=
+  check owner_only c else EPerm;
+  Ok (with_contracts f (remove_z a (fc_contracts f)), [], []).
+
+Definition ep_wl_add (f : fc) (c a : Z) : result (fc * outs * detail) :=
+  check owner_only c else EPerm;
+  check negb (mem a (fc_wl f)) else EGuard;
+  Ok (with_wl f (fc_wl f ++ [a]), [], []).
+
+Definition ep_wl_rm (f : fc) (c a : Z) : result (fc * outs * detail) :=
+  check owner_only c else EPerm;
+  check mem a (fc_wl f) else EGuard;
+  Ok (with_wl f (remove_z a (fc_wl f)), [], []).
+
+Definition ep_set_per_block (f : fc) (c amt : Z) : result (fc * outs * detail) :=
+  check owner_only c else EPerm;
+  check (0 <=? amt) else EGuard;
+  do cw <- current_week f;
+  let f1 := accumulate_additional f cw in
+  Ok (with_lock f1 (fc_lock_week f1) amt, [], []).
+
+Definition step (f : fc) (op : fop) : result (fc * outs * detail) :=
+  match op with
+  | Advance n => ep_advance f n
+  | SetEnergy u amt tok => ep_set_energy f u amt tok
+  | SetEnergyRaw u amt ep tok => ep_set_energy_raw f u amt ep tok
+  | Deposit c tok nonce amt => ep_deposit f c tok nonce amt
+  | Claim c orig boosted => ep_claim f c orig boosted
+  | UpdateEnergy c u => ep_update_energy f c u
+  | Pause c p => ep_pause f c p
+  | AddToken c t => ep_add_token f c t
+  | RemoveToken c t => ep_remove_token f c t
+  | AddContract c a => ep_add_contract f c a
+  | RemoveContract c a => ep_remove_contract f c a
+  | WlAdd c a => ep_wl_add f c a
+  | WlRm c a => ep_wl_rm f c a
+  | SetPerBlock c amt => ep_set_per_block f c amt
+  end.
+
+(** A failed transaction reverts: the runner keeps the old state. *)
+Definition step_total (f : fc) (op : fop) : fc :=
+  match step f op with Ok (f', _, _) => f' | Err _ => f end.
+
+Definition run (f : fc) (ops : list fop) : fc := fold_left step_total ops f.
+
+(** ------------------------------------------------------------------ views *)
+Definition view_total_rewards (f : fc) (week : Z) : list (Z * Z) := rget (w_rewards (fc_w f)) week.
+Definition view_total_energy (f : fc) (week : Z) : Z := aget (w_energy (fc_w f)) week.
+Definition view_total_locked (f : fc) (week : Z) : Z := aget (w_tokens (fc_w f)) week.
+Definition view_accumulated (f : fc) (week tok : Z) : Z := acc_get (fc_h f) week tok.
+Definition view_progress (f : fc) (u : Z) : option progress := pfind (w_prog (fc_w f)) u.
+Definition view_last_global (f : fc) : Z := w_last (fc_w f).
